@@ -658,7 +658,7 @@ class Unit:
                 if ls.hoist:
                     im = re.match(r'(.+)\.iter\(\)$', expr, re.S)
                     if not im:
-                        raise Undecided('hoist: loop %d in %s does not iterate over <expr>.iter()' % (k, spec.key))
+                        raise Undecided('hoist: loop %s in %s does not iterate over <expr>.iter()' % (k, spec.key))
                     gname = '__guard%d' % (loops.index(m))
                     pre = '{ let %s = %s; %s' % (gname, im.group(1), ('\n' + '\n'.join(x.replace('${GUARD}', gname) for x in ls.hoisted) + '\n') if ls.hoisted else '')
                     expr = '%s.iter()' % gname
